@@ -549,6 +549,12 @@ func newWorld(c consts, seed int64, newState bool, backend string) (*world, erro
 	if err := w.bootNode(); err != nil {
 		return nil, err
 	}
+	if c.Base > 0 {
+		// the L1 head that allowed the earlier life to prune up to Base
+		if err := w.setL1(c.Base + c.Retained); err != nil {
+			return nil, err
+		}
+	}
 	for n := first; n <= c.InitH; n++ {
 		if err := w.newBlock(false); err != nil {
 			return nil, fmt.Errorf("initial chain block %d: %w", n, err)
@@ -1116,7 +1122,10 @@ func (w *world) sweepBlock(bc *blockchain.Blockchain, store db.KeyValueReader, n
 	if terr != nil {
 		return
 	}
-	tb, _ := tw.BlockByNumber(n)
+	tb, berr := tw.BlockByNumber(n)
+	if berr != nil {
+		return // below the first block of an image the twin has the carved-out header only
+	}
 	tsu, _ := tw.StateUpdateByNumber(n)
 	tc, _ := tw.BlockCommitmentsByNumber(n)
 	a1, e1 := bc.BlockHeaderByNumber(n)
@@ -1181,7 +1190,24 @@ func (w *world) sweepBlock(bc *blockchain.Blockchain, store db.KeyValueReader, n
 	}
 }
 
+// deepState: on an image (Base > 0) the database holds 8 MB aggregated filters, and every read of
+// the legacy state history copies the whole memory database (its batch iterator): there the VALUES
+// of historical state are compared around the oldest retained block and at the head only (that
+// every other block's state is served or refused as it must is still checked, and the scenarios
+// from genesis compare every value of every block).
+func (w *world) deepState(n uint64) bool {
+	if w.c.Base == 0 {
+		return true
+	}
+	o, err := pruner.OldestRetainedBlock(w.raw)
+	h, herr := core.GetChainHeight(w.raw)
+	return err != nil || herr != nil || n+1 == o || n == o || n == o+1 || n == h
+}
+
 func (w *world) cmpState(sym string, n uint64, a, b core.StateReader, add adder) {
+	if !w.deepState(n) {
+		return
+	}
 	chk := func(what string, va, vb felt.Felt, ea, eb error) {
 		if (ea == nil) != (eb == nil) {
 			add(sym+":error", fmt.Sprintf("state at %d, %s: node err %v, twin err %v", n, what, ea, eb))
@@ -1295,7 +1321,7 @@ func (w *world) scan(bc *blockchain.Blockchain, from, to uint64, chunk uint64) (
 func (w *world) eventMonitors(bc *blockchain.Blockchain, oldest, th uint64, add adder) {
 	found, qerr := w.query(bc, oldest, th)
 	if qerr != nil {
-		add("events:error", fmt.Sprintf("filtered queries over the retained range [%d, %d]: %v", oldest, th, qerr))
+		add("events:retained-range:"+strings.SplitN(errClass(qerr), ":", 2)[0], fmt.Sprintf("filtered event queries over the retained blocks [%d, %d] fail: %v", oldest, th, qerr))
 	} else {
 		want := []bk{}
 		for n := oldest; n <= th; n++ {
@@ -1317,7 +1343,7 @@ func (w *world) eventMonitors(bc *blockchain.Blockchain, oldest, th uint64, add 
 			}
 			got, err := w.scan(bc, r.from, r.to, chunk)
 			if err != nil {
-				add("events:scan-error", fmt.Sprintf("unfiltered query over the retained blocks [%d, %d] (oldest retained %d, head %d, chunks of %d): %v", r.from, r.to, oldest, th, chunk, err))
+				add("events:retained-range:"+strings.SplitN(errClass(err), ":", 2)[0], fmt.Sprintf("unfiltered event query over the retained blocks [%d, %d] (oldest retained %d, head %d, chunks of %d) fails: %v", r.from, r.to, oldest, th, chunk, err))
 				break
 			}
 			if want := w.naive(r.from, r.to); !reflect.DeepEqual(got, want) {
